@@ -294,6 +294,9 @@ class TrackedDict(TrackedValue, dict):
     def update(self, *args, **kwargs):
         args = [ arg if isinstance(arg, dict) else dict(arg) for arg in args ]
         return self._update(*args, **kwargs)
+    def __ior__(self, other):
+        self.update(other)
+        return self
     setdefault = tracked_method(dict.setdefault)
     pop = tracked_method(dict.pop)
     popitem = tracked_method(dict.popitem)
@@ -308,9 +311,20 @@ class TrackedList(TrackedValue, list):
         list.__init__(self, (self.make(obj, attr, val) for val in value))
     def __reduce__(self):
         return list, (list(self),)
-    __setitem__ = tracked_method(list.__setitem__)
+    _setitem = tracked_method(list.__setitem__)
+    def __setitem__(self, index, value):
+        # items taken from an arbitrary iterable must be wrapped as well: make it a list first
+        if isinstance(index, slice) and not isinstance(value, list): value = list(value)
+        return self._setitem(index, value)
     __delitem__ = tracked_method(list.__delitem__)
-    extend = tracked_method(list.extend)
+    _extend = tracked_method(list.extend)
+    def extend(self, items):
+        if not isinstance(items, list): items = list(items)
+        return self._extend(items)
+    def __iadd__(self, items):
+        self.extend(items)
+        return self
+    __imul__ = tracked_method(list.__imul__)
     append = tracked_method(list.append)
     pop = tracked_method(list.pop)
     remove = tracked_method(list.remove)
